@@ -115,6 +115,13 @@ CHECKS = {
              "to the original on all bounded inputs.",
         note="Trusted: TLC; reparses rejected by the front end's incomplete static checks are counted, not failed; "
              "already ill-scoped procedures are outside the claim."),
+    "C13": dict(level=MC, design="6/C13",
+        technique="TLA+ IndexExpr specification (floor-semantics evaluation, containment over all valuations) validating claims logged from the real range analysis; TLC",
+        text="Every claim the real range analysis makes - logged inside index_range_analysis while the real compiler, simplify and "
+             "loop/buffer normalisation run on the corpus, returned to users by infer_range for every index expression and "
+             "scope, or produced on generated expressions x environments with unknown and half-open ends - is checked by TLC: "
+             "for all valuations admitted by the environment the expression's value lies in base + [lo, hi].",
+        note="Trusted: TLC, the claim export (harness/rangeclaims.py); unknown ends explored in a finite window."),
 }
 
 NOT_YET = {}
